@@ -46,16 +46,30 @@ def _find_template(fn):
                         "found")
 
 
-class _StrInterp:
-    """evaluates the hole-building statements for a symbolic field list"""
+class _Return(Exception):
+    def __init__(self, value):
+        self.value = value
 
-    def __init__(self, fields):
+
+class _StrInterp:
+    """evaluates the hole-building statements for a symbolic field list.
+
+    A small interpreter over the constructs such code is written with: string
+    and list values, f-strings, ``sep.join(...)``, ``str.format`` / ``%``,
+    concatenation, comprehensions and generators over ``fields(cls)``,
+    if/else and conditional expressions on emptiness, and calls to private
+    module-level helper functions (evaluated with their parameters bound)."""
+
+    def __init__(self, fields, helpers=None):
         self.fields = fields
         self.env = {}
         self.problems = []
+        self.helpers = helpers or {}
+        self.depth = 0
 
+    # -- expressions ---------------------------------------------------------
     def ev(self, e):
-        if isinstance(e, ast.Constant) and isinstance(e.value, str):
+        if isinstance(e, ast.Constant) and isinstance(e.value, (str, int, bool)):
             return e.value
         if isinstance(e, ast.Name) and e.id in self.env:
             return self.env[e.id]
@@ -65,47 +79,120 @@ class _StrInterp:
                 if isinstance(p, ast.Constant):
                     out += p.value
                 else:
-                    out += self.ev(p.value)
+                    v = self.ev(p.value)
+                    if p.conversion == 114:          # !r
+                        v = repr(v)
+                    out += str(v)
             return out
-        if isinstance(e, ast.Call) and isinstance(e.func, ast.Attribute) \
-                and e.func.attr == "join" and isinstance(e.func.value,
-                                                         ast.Constant):
-            sep = e.func.value.value
-            g = e.args[0]
-            if not isinstance(g, (ast.GeneratorExp, ast.ListComp)) or \
-                    len(g.generators) != 1:
-                raise TemplateError("hole is not built by one generator")
-            gen = g.generators[0]
-            it = ast.unparse(gen.iter)
-            if it != "fields(cls)":
-                self.problems.append(
-                    f"line {e.lineno}: the generator iterates '{it}' instead of "
-                    "fields(cls): the field list is sliced, filtered or "
-                    "reordered")
-                # interpret common deviations so the result still shows them
-                flds = self._deviant_fields(gen.iter)
-            else:
-                flds = list(self.fields)
-            if gen.ifs:
-                self.problems.append(
-                    f"line {e.lineno}: the generator over fields(cls) has a "
-                    f"filter ({ast.unparse(gen.ifs[0])})")
-                flds = [f for f in flds if self._filter_keeps(gen.ifs[0], f)]
-            if not isinstance(gen.target, ast.Name):
-                raise TemplateError("generator target is not a name")
-            out = []
-            for f in flds:
-                saved = dict(self.env)
-                self.env[gen.target.id] = ("FIELD", f)
-                out.append(self.ev(g.elt))
-                self.env = saved
-            return sep.join(out)
+        if isinstance(e, (ast.GeneratorExp, ast.ListComp)):
+            return self._comp(e)
+        if isinstance(e, (ast.List, ast.Tuple)):
+            return [self.ev(x) for x in e.elts]
+        if isinstance(e, ast.Call) and isinstance(e.func, ast.Attribute):
+            recv = e.func.value
+            if e.func.attr == "join" and len(e.args) == 1:
+                sep = self.ev(recv)
+                items = self.ev(e.args[0])
+                if isinstance(sep, str) and isinstance(items, list):
+                    return sep.join(str(x) for x in items)
+            if e.func.attr == "format" and not e.keywords:
+                fmt = self.ev(recv)
+                if isinstance(fmt, str):
+                    return fmt.format(*[self.ev(a) for a in e.args])
+        if isinstance(e, ast.Call) and isinstance(e.func, ast.Name):
+            name = e.func.id
+            if name in ("list", "tuple") and len(e.args) == 1:
+                v = self.ev(e.args[0])
+                if isinstance(v, list):
+                    return list(v)
+            if name == "len" and len(e.args) == 1:
+                v = self.ev(e.args[0])
+                if isinstance(v, (list, str)):
+                    return len(v)
+            if name in ("bool",) and len(e.args) == 1:
+                return bool(self.ev(e.args[0]))
+            if name in ("repr", "str") and len(e.args) == 1:
+                v = self.ev(e.args[0])
+                return repr(v) if name == "repr" else str(v)
+            if name in self.helpers and not e.keywords:
+                return self._call_helper(self.helpers[name],
+                                         [self.ev(a) for a in e.args])
+        if isinstance(e, ast.BinOp) and isinstance(e.op, ast.Add):
+            l_, r_ = self.ev(e.left), self.ev(e.right)
+            if type(l_) is type(r_) and isinstance(l_, (str, list)):
+                return l_ + r_
+        if isinstance(e, ast.BinOp) and isinstance(e.op, ast.Mod):
+            l_, r_ = self.ev(e.left), self.ev(e.right)
+            if isinstance(l_, str):
+                return l_ % (tuple(r_) if isinstance(r_, list) else r_)
+        if isinstance(e, ast.UnaryOp) and isinstance(e.op, ast.Not):
+            return not self.ev(e.operand)
+        if isinstance(e, ast.IfExp):
+            return self.ev(e.body) if self.ev(e.test) else self.ev(e.orelse)
+        if isinstance(e, ast.Compare) and len(e.ops) == 1:
+            l_, r_ = self.ev(e.left), self.ev(e.comparators[0])
+            op = e.ops[0]
+            if isinstance(op, ast.Eq):
+                return l_ == r_
+            if isinstance(op, ast.NotEq):
+                return l_ != r_
+            if isinstance(op, ast.Gt):
+                return l_ > r_
         if isinstance(e, ast.Attribute) and isinstance(e.value, ast.Name) \
                 and e.value.id in self.env and isinstance(
                 self.env[e.value.id], tuple) and e.attr == "name":
             return self.env[e.value.id][1]
         raise TemplateError(f"cannot interpret {ast.unparse(e)} in the "
                             "hole-building code")
+
+    def _comp(self, g):
+        if len(g.generators) != 1:
+            raise TemplateError("hole is not built by one generator")
+        gen = g.generators[0]
+        it = ast.unparse(gen.iter)
+        if it == "fields(cls)":
+            flds = [("FIELD", f) for f in self.fields]
+        elif isinstance(gen.iter, ast.Name) and isinstance(
+                self.env.get(gen.iter.id), list):
+            flds = list(self.env[gen.iter.id])
+        else:
+            self.problems.append(
+                f"line {g.lineno}: the generator iterates '{it}' instead of "
+                "fields(cls): the field list is sliced, filtered or reordered")
+            # interpret common deviations so the result still shows them
+            flds = [("FIELD", f) for f in self._deviant_fields(gen.iter)]
+        if gen.ifs:
+            self.problems.append(
+                f"line {g.lineno}: the generator over fields(cls) has a "
+                f"filter ({ast.unparse(gen.ifs[0])})")
+            flds = [f for f in flds if self._filter_keeps(gen.ifs[0], f)]
+        if not isinstance(gen.target, ast.Name):
+            raise TemplateError("generator target is not a name")
+        out = []
+        for f in flds:
+            saved = dict(self.env)
+            self.env[gen.target.id] = f
+            out.append(self.ev(g.elt))
+            self.env = saved
+        return out
+
+    def _call_helper(self, fn, args):
+        if self.depth > 4:
+            raise TemplateError("helper recursion in the hole-building code")
+        params = [a.arg for a in fn.args.args]
+        if len(params) != len(args):
+            raise TemplateError(f"helper {fn.name}: arity")
+        saved = self.env
+        self.env = dict(zip(params, args))
+        self.depth += 1
+        try:
+            self.run(fn.body)
+            raise TemplateError(f"helper {fn.name} does not return")
+        except _Return as r:
+            return r.value
+        finally:
+            self.env = saved
+            self.depth -= 1
 
     def _deviant_fields(self, it):
         src = ast.unparse(it)
@@ -123,22 +210,22 @@ class _StrInterp:
     def _filter_keeps(self, test, f):
         return False
 
+    # -- statements ----------------------------------------------------------
     def run(self, stmts):
         for st in stmts:
             if isinstance(st, ast.Assign) and len(st.targets) == 1 and \
                     isinstance(st.targets[0], ast.Name):
                 self.env[st.targets[0].id] = self.ev(st.value)
+            elif isinstance(st, ast.AnnAssign) and isinstance(
+                    st.target, ast.Name) and st.value is not None:
+                self.env[st.target.id] = self.ev(st.value)
             elif isinstance(st, ast.If):
-                t = st.test
-                neg = False
-                if isinstance(t, ast.UnaryOp) and isinstance(t.op, ast.Not):
-                    t, neg = t.operand, True
-                if not (isinstance(t, ast.Name) and t.id in self.env):
-                    raise TemplateError("unexpected condition in hole-building "
-                                        "code")
-                truth = bool(self.env[t.id]) != neg
-                self.run(st.body if truth else st.orelse)
+                self.run(st.body if self.ev(st.test) else st.orelse)
+            elif isinstance(st, ast.Return):
+                raise _Return(self.ev(st.value) if st.value is not None else None)
             elif isinstance(st, ast.Expr) and isinstance(st.value, ast.Constant):
+                pass
+            elif isinstance(st, (ast.Import, ast.ImportFrom, ast.Pass)):
                 pass
             else:
                 raise TemplateError(f"unexpected statement "
@@ -157,7 +244,9 @@ def instantiate(model, nfields=2) -> Instantiation:
             continue
         pre.append(st)
     fields = [f"FLD{i}" for i in range(nfields)]
-    interp = _StrInterp(fields)
+    helpers = {k.split(":", 1)[1]: f for k, (mm, f) in model.functions.items()
+               if mm is m}
+    interp = _StrInterp(fields, helpers)
     interp.run(pre)
     env = dict(interp.env)
     # render the template
@@ -173,7 +262,7 @@ def instantiate(model, nfields=2) -> Instantiation:
                 out += "CLS"
             elif src == "hash":
                 out += "HASH_ENABLED"
-            elif src in env:
+            elif src in env and isinstance(env[src], str):
                 out += env[src]
             else:
                 raise TemplateError(f"template hole {{{src}}} not understood")
